@@ -230,3 +230,8 @@ func fmtObserved(v interface{}) string {
 	}
 	return fmt.Sprintf("<%T>", v)
 }
+
+// FreezeClock makes the environment clock (time.Now) stand still at the given unix-nanosecond instant for the
+// rest of the path. For harnesses where wall-clock time only feeds slow-logs and latency metrics: each such
+// comparison would otherwise double the number of paths. Natively a no-op (the real clock runs).
+func FreezeClock(unixNano int64) {}
